@@ -257,6 +257,11 @@ static Boolean DecodeAdr(tStrComp const* pArg, int Mask) {
             AdrPart = 0x1e;
             if ((*RegComp.str.p_str == '+') || (*RegComp.str.p_str == '-')
                 || (as_isspace(*RegComp.str.p_str))) {
+                /* the '+' only separates register and displacement: the expression
+                   parser knows no unary plus in front of a symbol or parenthesis */
+                if (*RegComp.str.p_str == '+') {
+                    StrCompIncRefLeft(&RegComp, 1);
+                }
                 AdrVal = EvalStrIntExpression(&RegComp, SInt16, &OK);
                 if (OK) {
                     AdrVals[0] = AdrVal & 0xff;
@@ -279,7 +284,8 @@ static Boolean DecodeAdr(tStrComp const* pArg, int Mask) {
                 (as_toupper(*Arg.str.p_str) == 'R')
                 && (as_toupper(Arg.str.p_str[1]) == 'L') && (Arg.str.p_str[2] >= '0')
                 && (Arg.str.p_str[2] <= '3')) {
-            AdrVal = EvalStrIntExpressionOffs(&Arg, 3, SInt8, &OK);
+            AdrVal = EvalStrIntExpressionOffs(
+                    &Arg, (Arg.str.p_str[3] == '+') ? 4 : 3, SInt8, &OK);
             if (OK) {
                 AdrVals[0] = AdrVal & 0xff;
                 AdrCnt     = 1;
@@ -340,6 +346,9 @@ static Boolean DecodeAdr(tStrComp const* pArg, int Mask) {
                     }
                 } else /* numeric index               */
                 {
+                    if (*IComp.str.p_str == '+') {
+                        StrCompIncRefLeft(&IComp, 1);
+                    }
                     AdrVal = /* max length depends on base  */
                             EvalStrIntExpression(
                                     &IComp, (AdrPart > 3) ? SInt8 : SInt16, &OK);
